@@ -633,6 +633,19 @@ func (e *authEnv) tfArgs(kind, sender, canon string, plausible bool) []string {
 		}
 		return h.App.BankKeeper.GetBalance(h.Ctx, e.acc(n), rd).Amount.Int64()
 	}
+	// a module account on which some of the denom is parked (tfLife case 4), if any: the admin powers must
+	// not reach into it whatever the amount
+	modHolder := func() string {
+		st := e.r.Intn(len(e.modSome))
+		for i := range e.modSome {
+			m := e.modSome[(st+i)%len(e.modSome)]
+			if h.App.BankKeeper.GetBalance(h.Ctx, e.acc(m), rd).Amount.IsPositive() {
+				e.o.Count("tokenfactory.args:module-holder-targeted")
+				return m
+			}
+		}
+		return anyT()
+	}
 	switch kind {
 	case "mint":
 		if plausible {
@@ -649,7 +662,7 @@ func (e *authEnv) tfArgs(kind, sender, canon string, plausible bool) []string {
 			}
 			return []string{fmt.Sprint(a), f}
 		}
-		f := e.pick("-", anyT(), anyT(), holder())
+		f := e.pick("-", anyT(), modHolder(), modHolder(), holder())
 		fr := f
 		if f == "-" {
 			fr = sender
@@ -666,7 +679,7 @@ func (e *authEnv) tfArgs(kind, sender, canon string, plausible bool) []string {
 			}
 			return []string{fmt.Sprint(a), f, e.pick(usr(), usr(), e.pool)}
 		}
-		f := e.pick(anyT(), holder())
+		f := e.pick(anyT(), holder(), modHolder(), modHolder())
 		b := balOf(f)
 		return []string{fmt.Sprint(e.pick("0", "1", fmt.Sprint(b), fmt.Sprint(b+1))), f, anyT()}
 	case "admin":
@@ -741,7 +754,7 @@ func (e *authEnv) tfLife(w *tfWorld) {
 				e.tfSend(w, "admin", cur, c, "admin", e.tfArgs("admin", cur, c, true))
 			case 3:
 				k := e.pick("burn", "force", "meta")
-				e.tfSend(w, k, cur, c, "admin", e.tfArgs(k, cur, c, true))
+				e.tfSend(w, k, cur, c, "admin", e.tfArgs(k, cur, c, e.r.Intn(3) != 0))
 			case 4:
 				// park some of the denom on a module account with a plain bank transfer (not a tokenfactory message)
 				u := e.users[e.r.Intn(len(e.users))]
